@@ -1,5 +1,6 @@
 import TracklibVerif.Model.Graph
 import TracklibVerif.Model.GraphPathExt
+import TracklibVerif.Model.GraphMut
 import TracklibVerif.Drv.Util
 import TracklibVerif.Drv.C06
 /-! Driver handler for C07 (shortest path reconstruction), weights in `Rat` (or `Float`, commands prefixed with `f`), points on the integer lattice.
@@ -28,7 +29,21 @@ tag; the reply gives the coordinates of the observations of the returned track.
      (`;`); `<ends>` = per edge `sx,sy,tx,ty`, the coordinates of the two Node objects given to `addEdge`
      → `NEXT_EDGES` of the nodes 0..n-1 (edge ids `,`, lists `;`, an empty list is `e`) `#` the stored position `x,y` of
        every node (`-` = not registered) `#` the node ids in insertion order
-  fpaths / fsession: the same with weights, cut-offs and labels as IEEE-754 bit patterns (model instantiated at `Float`) -/
+  msession <n> <ops>
+     ONE network object (`Model/GraphMut.lean`), built and MODIFIED by the calls themselves, node ids `< n`. `<ops>` as for
+     `session`, plus (a point is `x,y`, a polyline a flat list `x,y,x,y,…` or `e`; `<af>` = 1: the geometry carries an
+     analytical feature):
+        `N:<v>:<x,y>`                              addNode(Node(v, coord))              → `ok` | `err`
+        `E:<id,s,t,w,o>:<sx,sy,tx,ty>:<line>:<af>` addEdge(edge, Node(s,…), Node(t,…)) → `ok` | `err`
+        `W:<id>:<w>`                               getEdge(id).weight = w               → `ok` | `key` | `err`
+        `O:<id>:<o>`                               getEdge(id).orientation = o          → `ok` | `key`
+        `G:<id>:<line>:<af>`                       getEdge(id).geom = track             → `ok` | `key`
+        `C:<v>:<x,y>`                              getNode(v).coord = coord             → `ok` | `key`
+     a routing call that names an unregistered node → `key` (KeyError)
+     → outputs (`|`) `#` the `output_dict` entries `#` the final content: NEXT_EDGES per node 0..n-1 `!` stored position per
+       node (`-` = not registered) `!` node ids in insertion order `!` the edges `id,s,t,w,o` in insertion order `!` their
+       polylines
+  fpaths / fsession / fmsession: the same with weights, cut-offs and labels as IEEE-754 bit patterns (model instantiated at `Float`) -/
 namespace TV.Drv.C07
 open TV.Graph TV.GraphExt TV.Drv
 
@@ -143,6 +158,91 @@ def showBuilt (n : Nat) (nb : GraphExt.NetObj W (Int × Int)) : String :=
     ++ "#" ++ joinWith ";" ((List.range n).map (fun v => match GraphExt.posOf nb v with | some p => s!"{p.1},{p.2}" | none => "-"))
     ++ "#" ++ joinWith "," (nb.nodes.map (fun p => toString p.1))
 
+
+/-! ### `msession`: the network is built and modified by the calls themselves -/
+
+/-- fresh observations for the points `pts`: tags = their indices in the (growing) coordinate table -/
+def freshObs (af : Bool) (coords : Array (Int × Int)) (pts : List (Int × Int)) : List Seq.Obs × Array (Int × Int) :=
+  pts.foldl (fun acc p => (acc.1 ++ [{ tag := acc.2.size, time := 0, feats := if af then [1] else [] }], acc.2.push p)) ([], coords)
+
+def freshTrack (af : Bool) (coords : Array (Int × Int)) (pts : List (Int × Int)) : Seq.Track × Array (Int × Int) :=
+  let r := freshObs af coords pts
+  (⟨r.1, if af && !pts.isEmpty then [("speed", 0)] else []⟩, r.2)
+
+def point? (s : String) : Option (Int × Int) :=
+  match intList? s with
+  | some [x, y] => some (x, y)
+  | _ => none
+
+def mop? (n : Nat) (coords : Array (Int × Int)) (s : String) : Option (GraphMut.Op W × Array (Int × Int)) :=
+  match splitTok s ':' with
+  | ["N", v, p] => do
+    let v ← v.toNat?
+    let p ← point? p
+    let r := freshObs false coords [p]
+    pure (GraphMut.Op.addNode v (r.1.headD ⟨0, 0, []⟩), r.2)
+  | ["E", e, ends, line, af] => do
+    let e ← C06.edgeW? pw n e
+    let ends ← ends? ends
+    let line ← line? line
+    let af ← flag? af
+    let r := freshObs false coords [ends.1, ends.2]
+    let g := freshTrack af r.2 line
+    match r.1 with
+    | [sc, tc] => pure (GraphMut.Op.addEdge e sc tc g.1, g.2)
+    | _ => none
+  | ["W", i, w] => do
+    let i ← i.toNat?
+    let w ← pw w
+    pure (GraphMut.Op.setWeight i w, coords)
+  | ["O", i, x] => do
+    let i ← i.toNat?
+    let x ← x.toInt?
+    pure (GraphMut.Op.setOri i x, coords)
+  | ["G", i, line, af] => do
+    let i ← i.toNat?
+    let line ← line? line
+    let af ← flag? af
+    let g := freshTrack af coords line
+    pure (GraphMut.Op.setGeom i g.1, g.2)
+  | ["C", v, p] => do
+    let v ← v.toNat?
+    let p ← point? p
+    let r := freshObs false coords [p]
+    pure (GraphMut.Op.setCoord v (r.1.headD ⟨0, 0, []⟩), r.2)
+  | _ =>
+    match (op? pw n s : Option (GraphExt.Op W)) with
+    | some (.path a b c d) => some (GraphMut.Op.path a b c d, coords)
+    | some (.dist a b c d) => some (GraphMut.Op.dist a b c d, coords)
+    | some (.fwd a b c d) => some (GraphMut.Op.fwd a b c d, coords)
+    | some (.back b) => some (GraphMut.Op.back b, coords)
+    | none => none
+
+def mops? (n : Nat) : Array (Int × Int) → List String → Option (List (GraphMut.Op W) × Array (Int × Int))
+  | coords, [] => some ([], coords)
+  | coords, s :: r =>
+    match mop? pw n coords s with
+    | some (op, coords') => (mops? n coords' r).map (fun q => (op :: q.1, q.2))
+    | none => none
+
+def showMOut (sc : Scene) : GraphMut.Out W → String
+  | .unit => "ok"
+  | .done => "ok"
+  | .err => "err"
+  | .keyErr => "key"
+  | .attrErr => "attr"
+  | .path b label => showBackT sc b ++ "@" ++ showLabel sw label
+  | .dist d => "d=" ++ showLabel sw d
+  | .dists l => "l=" ++ joinWith "," (l.map (showLabel sw))
+
+def showContent (coords : Array (Int × Int)) (o : GraphMut.Obj W) : String :=
+  let at_ := fun (ob : Seq.Obs) => coords.getD ob.tag (0, 0)
+  joinWith ";" ((List.range o.n).map (fun u => if (o.nb.next u).isEmpty then "e" else joinWith "," ((o.nb.next u).map toString)))
+    ++ "!" ++ joinWith ";" ((List.range o.n).map (fun v => match GraphExt.posOf o.nb v with | some p => s!"{(at_ p).1},{(at_ p).2}" | none => "-"))
+    ++ "!" ++ joinWith "," (o.nb.nodes.map (fun p => toString p.1))
+    ++ "!" ++ joinWith ";" (o.nb.edges.map (fun e => s!"{e.id},{e.src},{e.tgt},{sw e.w},{e.ori}"))
+    ++ "!" ++ joinWith ";" (o.nb.edges.map (fun e => if (o.geom e.id).pts.isEmpty then "e" else showPts ((o.geom e.id).pts.map at_)))
+
 variable [LT W] [DecidableLT W] [Add W] [OfNat W 0]
 
 def handleW (cmd : String) (args : List String) : String :=
@@ -178,6 +278,16 @@ def handleW (cmd : String) (args : List String) : String :=
         joinWith "|" (r.1.map (showOut sw sc)) ++ "#" ++ showDict sw net.n r.2.dict
       | _, _, _ => "bad-request"
     | _, _ => "bad-request"
+  | "msession", [n, ops] =>
+    match n.toNat? with
+    | some n =>
+      match mops? pw n #[] (splitTok ops ';') with
+      | some (ops, coords) =>
+        let r := GraphMut.runOps (GraphMut.Obj.new n : GraphMut.Obj W) ops
+        let sc : Scene := { geo := GraphMut.geoOf r.2, coords := coords }
+        joinWith "|" (r.1.map (showMOut sw sc)) ++ "#" ++ showDict sw n r.2.dict ++ "#" ++ showContent sw coords r.2
+      | none => "bad-request"
+    | none => "bad-request"
   | _, _ => "bad-request"
 end generic
 
